@@ -45,6 +45,7 @@ const (
 	fErr   = "err"   // the tool (or the unknown-tool handler) returns its error
 	fPanic = "panic" // the tool (or the handler) panics
 	fMid   = "mid"   // streamable tools only: the stream delivers its first chunk, then the tool's error
+	fBoth  = "rderr" // streamable tools only: StreamableRun returns its error TOGETHER with a (complete) reader
 )
 
 type spec struct {
@@ -172,6 +173,10 @@ func (t *core) stream(args string) (*schema.StreamReader[string], error) {
 		sw.Send("", toolErr[t.name])
 		sw.Close()
 		return sr, nil
+	}
+	if t.w.sp.fail[t.name] == fBoth {
+		// a failed call is a failed call, whatever else it returns
+		return schema.StreamReaderFromArray(chunks), toolErr[t.name]
 	}
 	return schema.StreamReaderFromArray(chunks), nil
 }
@@ -524,7 +529,7 @@ func (sp *spec) judge(w *world, ob *observation, x *vsched.Exec) (string, error)
 		}
 		seen[c] = true
 		switch sp.effFail(c) {
-		case fErr, fMid:
+		case fErr, fMid, fBoth:
 			failing = append(failing, c)
 		case fPanic:
 			panicking = append(panicking, c)
@@ -743,7 +748,7 @@ func features(sp *spec) feat {
 	hard := 0
 	for _, a := range ft.actors {
 		switch sp.fail[a] {
-		case fErr, fPanic:
+		case fErr, fPanic, fBoth:
 			ft.nFail++
 			hard++
 		case fMid:
@@ -898,7 +903,7 @@ func main() {
 	c := harness.Init("C17")
 	ctx = c
 	quick := c.Quick()
-	c.Res.Rule = "scenario = call list (length 1-3 over {t1,t2,unknown name}, repeats with different arguments, unique ids) x kind of every called tool (invokable-only, streamable-only 1 or 2 chunks, both, streamable-only with a producer goroutine of its own that honours its context) x failure of every called tool and of the handler (none, error, panic, mid-stream error) x UnknownToolsHandler present/absent x Invoke/Stream x bare ToolsNode / single node of a compiled graph x yields in tool bodies (0/1 per tool); every interleaving of the calling goroutine, the tool goroutines and (Stream) the merge forwarders within the preemption bound, both map orders for the in-graph variants; distinct/non-trivial = distinct scheduling signatures of scenarios with >= 2 of them; the outcome string carries the completion order of the tool bodies"
+	c.Res.Rule = "scenario = call list (length 1-3 over {t1,t2,unknown name}, repeats with different arguments, unique ids) x kind of every called tool (invokable-only, streamable-only 1 or 2 chunks, both, streamable-only with a producer goroutine of its own that honours its context) x failure of every called tool and of the handler (none, error, panic, mid-stream error, an error returned together with a reader) x UnknownToolsHandler present/absent x Invoke/Stream x bare ToolsNode / single node of a compiled graph x yields in tool bodies (0/1 per tool); every interleaving of the calling goroutine, the tool goroutines and (Stream) the merge forwarders within the preemption bound, both map orders for the in-graph variants; distinct/non-trivial = distinct scheduling signatures of scenarios with >= 2 of them; the outcome string carries the completion order of the tool bodies"
 	c.Res.Assumptions = []string{
 		"sequential consistency at synchronisation granularity; tool bodies are atomic between their explicit yields, framework code between two synchronisation operations is atomic",
 		"streamable tools answer from arrays / a pre-filled buffered pipe (no producer goroutine of their own), so a goroutine left blocked can only be the framework's; the one exception is the kind sA, whose producer goroutine (named tool-producer:<tool>) sends through an unbuffered pipe after StreamableRun returned and reports a cancelled context as a stream error",
@@ -934,7 +939,7 @@ func main() {
 						return []string{fOK} // rejected before any tool runs: failures are irrelevant
 					}
 					if k != unknownName && kind[k] == kS2 {
-						return []string{fOK, fErr, fPanic, fMid}
+						return []string{fOK, fErr, fPanic, fMid, fBoth}
 					}
 					return []string{fOK, fErr, fPanic}
 				})
